@@ -153,6 +153,25 @@ def parse_cases(ctx, out):
                     if e["counted"]:
                         out.distribution["several germline fields in one line"] += 1
                         out.nontrivial.add((ann, col, text, "multi", tuple(sorted(chosen))))
+        # a line that carries a germline value AND has a deviating field count (a trailing tab, one field too many, the
+        # last field cut off): still refused in Strict mode, still nothing exposed otherwise
+        for _ in range(2):
+            col = rng.choice(list(cols))
+            k = names.index(col)
+            fields = colcases.valid_fields(ann, rng)
+            for c2 in cols:
+                fields[names.index(c2)] = ""
+            fields[k] = text = rng.choice(["A", "ACGT", "17", "T"])
+            shape = rng.choice(["trailing-tab", "extra-field", "cut"] if k < len(fields) - 1 else ["trailing-tab", "extra-field"])
+            line = "\t".join(fields[:-1] if shape == "cut" else fields) + {"trailing-tab": "\t", "extra-field": "\tx", "cut": ""}[shape]
+            for mode in MODES:
+                out.evaluations += 1
+                reqs.append(colcases.from_line_req(ann, line, mode, 5))
+                e = eval_parse(ann, col, text, mode, line)
+                out.failures += e["failures"]
+                if e["counted"]:
+                    out.distribution["germline value in a line with a deviating field count (%s)" % shape] += 1
+                    out.nontrivial.add((ann, col, text, shape))
         # protected-only VCF columns are absent from public layouts
         if ann.endswith("-public"):
             out.evaluations += 1
